@@ -38,6 +38,7 @@ fn build(args: BuildArgs) -> anyhow::Result<Option<usize>> {
         &args.options,
         progress,
         state.pools,
+        state.manifest_files,
     );
 
     let mut tasks_run = 0;
@@ -65,6 +66,7 @@ fn build(args: BuildArgs) -> anyhow::Result<Option<usize>> {
                 &args.options,
                 progress,
                 state.pools,
+                state.manifest_files,
             );
         }
     }
